@@ -506,7 +506,11 @@ pub fn merge(left: TE, right: TE, parent_tv: TypeVariable, state: &mut TypeCheck
                 }
                 _ => {
                     if let Some(w) = width {
-                        let first_span = *types.first().expect("Non-empty vector was empty");
+                        // The spans are in no particular order, so we find the lowest one
+                        let first_span = *types
+                            .iter()
+                            .min_by_key(|s| s.offset)
+                            .expect("Non-empty vector was empty");
 
                         if first_span.offset == 0 {
                             if first_span.size == *w {
